@@ -1,3 +1,4 @@
+import Cutplace.Proofs.CharSpelling
 import Cutplace.Spec.DataFormat
 /-
 C11  Data-format properties mean what the CID says; contradictions are refused.
@@ -86,6 +87,75 @@ theorem C11_spelling_literal (c : Char) (hs : isPySpace c = false) (hd : isAscii
   have : strip [c] = [c] := by simp [strip, rstrip, lstrip, hs]
   unfold validatedCharacterCode
   simp [this, hd]
+
+/-- the range-limit spelling that corresponds to a character spelling -/
+def limitSpelling : CharSpelling → Option LimitSp
+  | .decimal => some .dec
+  | .hex bigX up => some (.hex bigX up)
+  | .quoted dq => some (.quoted dq)
+  | .symbolic caps => some (.sym caps)
+  | _ => none
+
+/-- **The spellings of a character are interchangeable.** For every code point `c` and each of the
+spellings decimal number, `0x`/`0X` hexadecimal number (digits in either case), quoted character
+(either quote) and symbolic name (either case) that can express `c`, `_validated_character` returns
+the character `c` itself — so all of them denote the same character as the literal spelling
+(`C11_spelling_literal`).  The backslash-escape spellings inside quotes (`'\x..'`, `'\u....'`) are
+checked by the exhaustive correspondence only. -/
+theorem C11_spellings (sp : CharSpelling) (lsp : LimitSp) (hsp : limitSpelling sp = some lsp) (c : Nat)
+    (hl : sp.legal c = true) : validatedCharacter (spellChar sp c) = .ok (Char.ofNat c) := by
+  have hscalar : c < 0x110000 ∧ ¬ (0xD800 ≤ c ∧ c ≤ 0xDFFF) := by
+    unfold CharSpelling.legal at hl
+    simp only [Bool.and_eq_true, decide_eq_true_eq, Bool.not_eq_true', decide_eq_false_iff_not] at hl
+    exact ⟨hl.1.1, by simpa using hl.1.2⟩
+  have hconv : lsp.Convertible (c : Int) := by
+    cases lsp with
+    | dec =>
+      apply digits_within_limit
+      have h7 : c < 10 ^ 7 := by simp; omega
+      exact Nat.lt_of_lt_of_le h7 (Nat.pow_le_pow_right (by decide) (by decide))
+    | hex _ _ => trivial
+    | quoted _ => trivial
+    | sym _ => trivial
+  have key : ∀ (hlegal : lsp.Legal (c : Int)) (htext : spellChar sp c = renderLimit lsp 0 (c : Int)),
+      validatedCharacter (spellChar sp c) = .ok (Char.ofNat c) := by
+    intro hlegal htext
+    unfold validatedCharacter
+    rw [htext, validatedCharacterCode_limit lsp 0 (c : Int) (by omega) hlegal hconv]
+    have h1 : ¬ ((c : Int) < 0) := by omega
+    have h2 : ¬ ((c : Int) ≥ 0x110000) := by omega
+    have h3 : ¬ ((0xD800 : Int) ≤ c ∧ (c : Int) ≤ 0xDFFF) := by omega
+    simp [pyChr, h1, h2, h3]
+  cases sp with
+  | literal => simp [limitSpelling] at hsp
+  | escapedHex _ => simp [limitSpelling] at hsp
+  | escapedU _ => simp [limitSpelling] at hsp
+  | decimal =>
+    simp only [limitSpelling, Option.some.injEq] at hsp; subst hsp
+    exact key trivial (by simp [spellChar, Spec.renderLimit])
+  | hex bigX up =>
+    simp only [limitSpelling, Option.some.injEq] at hsp; subst hsp
+    exact key trivial (by simp [spellChar, Spec.renderLimit])
+  | quoted dq =>
+    simp only [limitSpelling, Option.some.injEq] at hsp; subst hsp
+    apply key
+    · unfold CharSpelling.legal at hl
+      simp only [Bool.and_eq_true, decide_eq_true_eq, Bool.not_eq_true', bne_iff_ne, ne_eq] at hl
+      obtain ⟨_, ⟨⟨h32, h127⟩, h92⟩, hq⟩ := hl
+      refine ⟨by omega, by omega, by omega, by omega, by omega, ?_⟩
+      cases dq <;> simp at hq ⊢ <;> omega
+    · simp [spellChar, Spec.renderLimit]
+  | symbolic caps =>
+    simp only [limitSpelling, Option.some.injEq] at hsp; subst hsp
+    apply key
+    · unfold CharSpelling.legal at hl
+      simp only [Bool.and_eq_true, decide_eq_true_eq] at hl
+      exact ⟨by omega, by omega⟩
+    · simp [spellChar, Spec.renderLimit]
+
+/-- non-vacuity: the tabulator in five spellings -/
+example : ["9", "0x9", "0X09", "'\t'", "tab", "TAB"].map (fun s => validatedCharacter s.toList) =
+    [.ok '\t', .ok '\t', .ok '\t', .ok '\t', .ok '\t', .ok '\t'] := by rfl
 
 /-- non-vacuity: a contradictory delimited format (item delimiter = quote character) is refused -/
 example : ({ format := .delimited, itemDelim := '"' } : DataFormat).validate = false := by decide
